@@ -4,9 +4,9 @@
 //   VH_PROP=C09: after the first failing write everything returns false, nothing more is stored, the counter keeps counting
 #include "doccase.hpp"
 #include "walk.hpp"
+#include "wops.hpp"
 
 using namespace vh;
-using ref::WOp;
 
 static const char *prop() {
     static const char *p = getenv("VH_PROP") ? getenv("VH_PROP") : "C04";
@@ -14,58 +14,6 @@ static const char *prop() {
 }
 static bool is05() { static bool b = !strcmp(prop(), "C05"); return b; }
 static bool is09() { static bool b = !strcmp(prop(), "C09"); return b; }
-
-static const char *kW[] = {"object_begin", "object_end", "array_begin", "array_end", "boolean", "integer", "double", "string_with_len", "name_with_len", "bytes", "raw", "string", "name"};
-
-static std::string op_text(const WOp &o) {
-    switch (o.k) {
-    case ref::W_BOOL: return fmt("boolean(%d)", (int)o.b);
-    case ref::W_INT: return fmt("integer(%" PRId64 ")", o.i);
-    case ref::W_DBL: return fmt("double(bits %016" PRIx64 ")", o.d);
-    case ref::W_STR: case ref::W_NAME: case ref::W_BYTES: case ref::W_RAW: case ref::W_STR_C: case ref::W_NAME_C:
-        return fmt("%s(len %zu: %s)", kW[o.k], o.s.size(), ref::hex(o.s, 8).c_str());
-    default: return kW[o.k];
-    }
-}
-static std::string ops_text(const std::vector<WOp> &ops, size_t lim = 40) {
-    std::string o;
-    for (size_t i = 0; i < ops.size() && i < lim; i++) { o += op_text(ops[i]); o += "; "; }
-    if (ops.size() > lim) o += fmt("...(%zu ops)", ops.size());
-    return o;
-}
-
-// payload blocks: each op's payload lives in its own exactly-sized block (C forms: + terminator)
-struct Payloads {
-    std::vector<Block *> b;
-    explicit Payloads(const std::vector<WOp> &ops) {
-        for (auto &o : ops) {
-            bool c = o.k == ref::W_STR_C || o.k == ref::W_NAME_C;
-            Block *x = new Block(o.s.size() + (c ? 1 : 0));
-            if (!o.s.empty()) memcpy(x->p, o.s.data(), o.s.size());
-            if (c) x->p[o.s.size()] = 0;
-            b.push_back(x);
-        }
-    }
-    ~Payloads() { for (auto *x : b) delete x; }
-};
-
-static bool do_write(binson_writer *w, const WOp &o, const Block &pl) {
-    switch (o.k) {
-    case ref::W_OBJ_B: return binson_write_object_begin(w);
-    case ref::W_OBJ_E: return binson_write_object_end(w);
-    case ref::W_ARR_B: return binson_write_array_begin(w);
-    case ref::W_ARR_E: return binson_write_array_end(w);
-    case ref::W_BOOL: return binson_write_boolean(w, o.b);
-    case ref::W_INT: return binson_write_integer(w, o.i);
-    case ref::W_DBL: { double d; memcpy(&d, &o.d, 8); return binson_write_double(w, d); }
-    case ref::W_STR: return binson_write_string_with_len(w, (const char *)pl.p, o.s.size());
-    case ref::W_NAME: return binson_write_name_with_len(w, (const char *)pl.p, o.s.size());
-    case ref::W_BYTES: return binson_write_bytes(w, pl.p, o.s.size());
-    case ref::W_RAW: return binson_write_raw(w, pl.p, o.s.size());
-    case ref::W_STR_C: return binson_write_string(w, (const char *)pl.p);
-    default: return binson_write_name(w, (const char *)pl.p);
-    }
-}
 
 struct WResult {
     size_t counter;
@@ -90,32 +38,6 @@ static WResult run_writer(const std::vector<WOp> &ops, const Payloads &pl, size_
 }
 
 // ---------------------------------------------------------------------------
-static std::vector<WOp> gen_arbitrary_ops(Src &s, bool big) {
-    std::vector<WOp> ops;
-    unsigned n = 1 + s.u8() % 24;
-    for (unsigned i = 0; i < n && !s.dry(); i++) {
-        WOp o;
-        unsigned k = s.u8() % 16;
-        switch (k) {
-        case 0: o.k = ref::W_OBJ_B; break;
-        case 1: o.k = ref::W_OBJ_E; break;
-        case 2: o.k = ref::W_ARR_B; break;
-        case 3: o.k = ref::W_ARR_E; break;
-        case 4: o.k = ref::W_BOOL; o.b = s.flag(); break;
-        case 5: case 6: o.k = ref::W_INT; o.i = gen_int(s); break;
-        case 7: o.k = ref::W_DBL; o.d = gen_double_bits(s); break;
-        case 8: case 9: o.k = ref::W_STR; o.s = gen_payload(s, gen_len(s, big)); break;
-        case 10: o.k = ref::W_NAME; o.s = gen_name(s, s.u8(), false); break;
-        case 11: case 12: o.k = ref::W_BYTES; o.s = gen_payload(s, gen_len(s, big)); break;
-        case 13: o.k = ref::W_RAW; o.s = gen_payload(s, s.u8() % 12); break;
-        case 14: o.k = ref::W_STR_C; o.s = gen_payload(s, gen_len(s, false)); for (auto &c : o.s) if (!c) c = 'z'; break;
-        default: o.k = ref::W_NAME_C; o.s = gen_name(s, s.u8(), false); for (auto &c : o.s) if (!c) c = 'z'; break;
-        }
-        ops.push_back(o);
-    }
-    return ops;
-}
-
 static DocOpts opts(bool big) {
     DocOpts o;
     o.allow_invalid = false;
